@@ -130,6 +130,12 @@ def main(pid, tier, seed, replay=None):
 
 
 def _main(pid, tier, seed, replay=None):
+    # two runs of the same property and tier share build/run/<pid>/<tier>: serialise them
+    with core.Lock("run-%s-%s" % (pid, tier)):
+        return _main_locked(pid, tier, seed, replay)
+
+
+def _main_locked(pid, tier, seed, replay=None):
     t0 = time.time()
     mod = load_prop(pid)
     rundir = os.path.join(core.BUILD, "run", pid, tier)
